@@ -212,6 +212,8 @@ func renamePrefixes(e Expr, m map[string]string) Expr {
 func famC11(rn *Runner) {
 	for di := 0; di < rn.Scale(10, 150) && !rn.TooMany(); di++ {
 		d := rn.genDoc(rn.Scale(45, 120))
+		rn.checkCallerResults(d, "all") // a caller-implemented Result as variable and function result
+
 		// the same document with the prefixes of its namespace declarations renamed
 		evs2 := append([]Event{}, d.Events...)
 		ren := map[string]string{"p": "pp", "q": "alpha", "r": "q", "": "dflt"}
